@@ -125,6 +125,7 @@ def run(tier, seed):
     _search(rep, prog)
     _rejection(rep, prog)
     _event(rep, prog)
+    _grid(rep, prog)
     return rep
 
 
@@ -819,3 +820,95 @@ def _event(rep, prog):
         conds.append(ir.fmt(bs[-1].stmt[1]) if bs else None)
     okd = okd and None not in conds and len(set(conds)) == 2 and all('_shooting_ ==' in c for c in conds)
     rep.add('EVENT', 'method-dispatch', where(d), 'shoot_e1_e2 forwards (prng_, e1_, e2_) to one of the two samplers according to _shooting_ (%s)' % conds, okd)
+
+
+# ----------------------------------------------------------------------------------------------- GRID
+def _grid(rep, prog):
+    """the sampling grid the inverse-transform sampler interpolates on is built from the recomputed step"""
+    from ..rules import taint
+    rep.rule('GRID.step', 'the energy grid `energies[i] = E_min + i * step` is built with the step recomputed as (E_max - E_min) / (n - 1), '
+             'not with the step field read from the table header (a hand-rounded header step puts the cell edges off the tabulated '
+             'cumulative values: sampled energies leave their cell and e1 + e2 can exceed the end point)')
+    n = 0
+    fns = [f for f in prog.functions.values() if f.get('file', '').endswith('dbd_gA.cc') and f.get('body')]
+
+    def recompute(e):
+        t = ir.fmt(e)
+        return e[0] == 'op' and e[1] == '/' and 'max' in t and 'min' in t and '-' in t
+
+    def last_def(F, sname, at, ex):
+        """the definition of `sname` nearest to node `at` among those that dominate it: ('assign', node) | ('extract', node) | None"""
+        cands = [('assign', x) for x in F.nodes(kind='assign') if ir.fmt(x.stmt[1]) == sname and F.dominates(x, at)]
+        cands += [('extract', x) for x, st_, vs in ex if any(ir.fmt(v) == sname for v in vs) and F.dominates(x, at)]
+        best = None
+        for c in cands:
+            if best is None or F.dominates(best[1], c[1]):
+                best = c
+        return best
+    for f in sorted(fns, key=lambda x: x['qn']):
+        F = cppflow.Flow(f, keep_io=True)
+        pushes = [x for x, name, a in F.call_nodes(lambda s_: s_.endswith('push_back')) if 'energies' in ir.fmt(x.stmt[2][0])
+                  and 'e1_' not in ir.fmt(x.stmt[2][0])]
+        if not pushes:
+            continue
+        ex = taint.extraction_nodes(F)
+        for p_ in pushes[:1]:
+            arg = p_.stmt[2][1]
+            if arg[0] == 'var':
+                ds = [x for x in F.nodes(kind='assign') if x.stmt[1] == arg and F.dominates(x, p_)]
+                if len(ds) >= 1:
+                    arg = ds[-1].stmt[2]
+            muls = [x for x in ir.subexprs(arg) if x[0] == 'op' and x[1] == '*']
+            steps = [y for m in muls for y in m[2:] if y[0] in ('var', 'fld') and 'min' not in ir.fmt(y)]
+            counters = {x.stmt[1] for x in F.nodes(kind='assign') if x.stmt[2][0] == 'op' and x.stmt[2][1] == '+' and x.stmt[1] in x.stmt[2][2:]}
+            steps = [y for y in steps if y not in counters]
+            if len(steps) != 1:
+                # e.g. `E_min + i * (E_max - E_min) / (n - 1)` written in place: recomputed by construction
+                if any(recompute(x) for x in ir.subexprs(arg)):
+                    n += 1
+                    rep.add('GRID.step', f['name'], where(f, p_.line), '%s: the grid step is computed in place from E_max - E_min' % f['name'], True)
+                else:
+                    rep.cannot_decide('GRID.step', where(f, p_.line), '%s: the grid expression `%s` has no single step factor' % (f['name'], ir.fmt(arg)[:60]))
+                continue
+            sname = ir.fmt(steps[0])
+            d = last_def(F, sname, p_, ex)
+            n += 1
+            if d is not None and d[0] == 'assign':
+                ok = recompute(d[1].stmt[2])
+                rep.add('GRID.step', f['name'], where(f, p_.line), '%s: the step `%s` of the grid is the one recomputed at line %d' %
+                        (f['name'], sname, d[1].line), ok, None if ok else ['`%s` is assigned `%s`' % (sname, ir.fmt(d[1].stmt[2])[:60])])
+            elif d is not None and d[0] == 'extract':
+                rep.add('GRID.step', f['name'], where(f, p_.line), '%s: the step `%s` of the grid is recomputed' % (f['name'], sname), False,
+                        ['the nearest definition of `%s` before the grid loop is its extraction from the header line (line %d)' % (sname, d[1].line)])
+            elif steps[0][0] == 'var' and any(q['name'] == steps[0][1] for q in f['params']):
+                # the step is a parameter: what do the callers hand over?
+                pos = [i for i, q in enumerate(f['params']) if q['name'] == steps[0][1]][0]
+                verdicts = []
+                for g in fns:
+                    for c in astu.calls(g['body']):
+                        if c['callee']['qn'].split('::')[-1] != f['name'] or pos >= len(c.get('args', [])):
+                            continue
+                        FG = cppflow.Flow(g, keep_io=True)
+                        exg = taint.extraction_nodes(FG)
+                        a = astu.src(astu.strip_casts(c['args'][pos]))
+                        site = [x for x in FG.g.nodes if x.line == c.get('l') and x.kind in ('call', 'assign', 'eval')]
+                        dd = last_def(FG, a, site[0], exg) if site else None
+                        if dd is None:
+                            verdicts.append(None)
+                        elif dd[0] == 'extract':
+                            verdicts.append((False, g, c.get('l'), a))
+                        else:
+                            verdicts.append((recompute(dd[1].stmt[2]), g, c.get('l'), a))
+                bad = [v for v in verdicts if v is not None and v[0] is False]
+                if bad:
+                    rep.add('GRID.step', f['name'], where(f, p_.line), '%s: the step parameter `%s` of the grid receives a recomputed step' %
+                            (f['name'], sname), False,
+                            ['%s (line %s) passes `%s`, whose nearest definition is its extraction from the header line' % (v[1]['name'], v[2], v[3])
+                             for v in bad])
+                elif verdicts and all(v is not None and v[0] for v in verdicts):
+                    rep.add('GRID.step', f['name'], where(f, p_.line), '%s: every caller passes a recomputed step' % f['name'], True)
+                else:
+                    rep.cannot_decide('GRID.step', where(f, p_.line), '%s: the step parameter `%s` is not followed to a definition in the callers' % (f['name'], sname))
+            else:
+                rep.cannot_decide('GRID.step', where(f, p_.line), '%s: no definition of the step `%s` dominates the grid loop' % (f['name'], sname))
+    rep.floor('GRID.step', n, 1)
